@@ -48,7 +48,7 @@ def add_arith_ops(p, s, div=True, pow_=True, nary3=False):
     if pow_:
         m = p.m
         mk = m.Int if s == INT else m.Real
-        for e in (0, 1, 2):
+        for e in (0, 1, 2, -1):
             p.op("pow%d" % e, [s], REAL, (lambda e: lambda m, a: m.Pow(a, mk(e)))(e))
 
 
